@@ -28,6 +28,18 @@ Theorem C05_which_agrees_with_lookup :
 Proof. exact owner_owns. Qed.
 Print Assumptions C05_which_agrees_with_lookup.
 
+
+(* a callable property is invoked with the receiver first; an iterator literal held as a property is returned *)
+Theorem C05_callable_gets_receiver_first :
+  forall R env recv args kw st,
+    (forall b, eval_call R env recv (VBuiltin b) args kw st = r_callval R env (VBuiltin b) (recv :: args) kw st) /\
+    (forall fid c, nth_error (funcs st) fid = Some c -> ckind c = KFunc ->
+       eval_call R env recv (VFunc fid) args kw st = r_callval R env (VFunc fid) (recv :: args) kw st) /\
+    (forall fid c, nth_error (funcs st) fid = Some c -> ckind c = KIter ->
+       eval_call R env recv (VFunc fid) args kw st = (Ok (VFunc fid), st)).
+Proof. exact callable_gets_receiver_first. Qed.
+Print Assumptions C05_callable_gets_receiver_first.
+
 (* the property, else the first _missing in the same order, else NoPropErr *)
 Theorem C05_resolution_order :
   forall W name recv st,
